@@ -362,11 +362,13 @@ def DJ.inTheorem (d : DJ) (x : Json) : Bool :=
   | .const v => uniqKeys v && uniqKeys x
 
 /-- the finding classes that can apply to this case: only `nullable-union` (a null instance against an enum listing null);
-    an array / object member is compared structurally since e48d4b1. -/
+    an array / object member is compared structurally since e48d4b1), and `array-literal-flattened` (round trip: to.go's
+    `convertLiteral` flattens a literal whose one value is a slice). -/
 def DJ.why (d : DJ) (x : Json) : List String :=
-  match d with
-  | .enum vs => if Gozod.C11.nullCase vs x then ["nullable-union"] else []
-  | _ => []
+  (match d with
+   | .enum vs => if Gozod.C11.nullCase vs x then ["nullable-union"] else []
+   | _ => [])
+  ++ (if d.members.any (fun v => v.isArr) then ["array-literal-flattened"] else [])
 
 /-- "1" accepted, "0" rejected, "!" ParseAny panics. -/
 def verdictStr : Option Bool → String
@@ -428,7 +430,7 @@ def handle : List String → String
       | some (d, ts) =>
         match pJ ts with
         | some (x, []) =>
-          verdictStr (d.conv.parse x) ++ " " ++ b2s (d.valid x) ++ " ~ ~"
+          verdictStr (d.conv.parse x) ++ " " ++ b2s (d.valid x) ++ " " ++ b2s (d.conv.rtValid x) ++ " ~"
             ++ "\t" ++ ",".intercalate ((if d.inTheorem x then ["IN-EQ"] else []) ++ dedup (d.why x ++ instReasons x))
         | _ => "bad-op"
       | none => "bad-op"
